@@ -2,10 +2,11 @@
 # Runs the repository's pinned baseline (guard OFF) and compares with /root/.vp/BASELINE.json stable_pass.
 # exit 0 iff every stable_pass test passed.
 set -u
+mkdir -p /verif/target
 cd /repo
 export CARGO_NET_OFFLINE=true
 export CARGO_TARGET_DIR=${BASELINE_TARGET_DIR:-/repo/target}
-cargo nextest run --workspace --no-fail-fast --tool-config-file pb:/w/lib/nextest.toml --profile pb --test-threads 8 --offline >/tmp/.baseline.log 2>&1
+cargo nextest run --workspace --no-fail-fast --tool-config-file pb:/w/lib/nextest.toml --profile pb --test-threads 8 --offline > /verif/target/baseline.log 2>&1
 J=$CARGO_TARGET_DIR/nextest/pb/junit.xml
 python3 - "$J" <<'PY'
 import sys,json,xml.etree.ElementTree as ET
